@@ -9,12 +9,19 @@ CONSTANTS
   v0 = v0
   v1 = v1
   v2 = v2
+  c0 = c0
+  c1 = c1
+  c2 = c2
+  cb = cb
   bad = bad
   unk = unk
   Threads = {t1}
   Main = t1
   Opts = {o1, o2}
   Vals = {v0, v1}
+  Cells = {c0, c1, cb}
+  Mutable = {}
+  Heap0 <- Heap2
   Default <- Def2
   Bad = bad
   Unknown = unk
@@ -22,6 +29,7 @@ CONSTANTS
   MaxMap = 2
 VIEW View
 INVARIANT TypeOK
+INVARIANT HeapUntouched
 INVARIANT CallIsolation
 INVARIANT RejectAtomic
 INVARIANT SetExact
